@@ -28,6 +28,7 @@ def ops : PointOps (ZMod 7) where
   scale A := .ok A
   containsPoint _ _ := true
   mkPoint x _ := (x : ZMod 7)
+  fromAffine A := A
 
 theorem correct : PointOpsCorrect ops (1 : ZMod 7) id xc (fun _ => True) where
   n_prime := by decide
@@ -41,12 +42,13 @@ theorem correct : PointOpsCorrect ops (1 : ZMod 7) id xc (fun _ => True) where
     revert R
     decide
   mulG k := ⟨(k : ZMod 7), rfl, trivial, by simp⟩
-  mulAddG u1 Q u2 _ := ⟨_, rfl, trivial, by simp⟩
+  mulAddG _ u1 Q u2 _ := ⟨_, rfl, trivial, by simp⟩
   mul k Q _ := ⟨_, rfl, trivial, by simp⟩
   add A B _ _ := ⟨_, rfl, trivial, rfl⟩
   isInf A _ := by simp [ops]
   xOf A _ h := ⟨xval A, by simp [ops, show A ≠ 0 from h], by simp [xc, show A ≠ 0 from h]⟩
   yOf A _ h := ⟨0, by simp [ops, show A ≠ 0 from h], by decide, by decide⟩
   scale A _ := ⟨A, rfl, trivial, rfl⟩
+  fromAffine A _ := ⟨trivial, rfl⟩
 
 end Ecdsa.Toy
